@@ -3,6 +3,7 @@ import Verif.Spec.HtmlAttr
 import Verif.Model.HtmlAttr
 import Verif.Spec.HtmlKnown
 import Verif.Model.Html
+import Verif.Spec.HtmlKnownDoc
 /-! driver handlers for property C03 (ops `model.*`, `spec.*`, `trig.*`) -/
 namespace Verif.Driver.C03
 open Verif Verif.Driver
@@ -64,7 +65,7 @@ def tokattr : Handler := fun args => do
 def trigRefs : Handler := fun args => do
   let raw ← argChars args 1
   let names := (if Spec.HtmlKnown.glue raw then ["glue"] else []) ++
-    (if Spec.HtmlKnown.ctlRef raw then ["ctlref"] else []) ++
+    (if Spec.HtmlKnown.ctlRef raw || Spec.HtmlKnown.crLfRef raw then ["ctlref"] else []) ++
     (if Spec.HtmlKnown.hexOverflow raw then ["hexoverflow"] else [])
   .ok (strBytes (if names.isEmpty then "none" else ",".intercalate names))
 
@@ -132,7 +133,15 @@ def minifyOp : Handler := fun args => do
   | .ok out => .ok (charsToBytes out)
   | .error e => .error e
 
+/-- `trig.c03.doc tokens` → comma separated names of the document-level triggers that fire, or `none` -/
+def trigDoc : Handler := fun args => do
+  let toksG ← argGroups args 0
+  let toks ← toksG.mapM decodeTok
+  let names := Spec.HtmlKnownDoc.docTriggers toks
+  .ok (strBytes (if names.isEmpty then "none" else ",".intercalate names))
+
 def handlers : List (String × Handler) := [
+  ("trig.c03.doc", trigDoc),
   ("model.c03.minify", minifyOp),
   ("trig.c03.refs", trigRefs),
   ("model.c03.replent", replent),
